@@ -162,6 +162,60 @@ End Select.
 End Probe.
 
 (* ---------------------------------------------------------------------------------------------- *)
+(* StochasticLQ.to_dense *)
+Section SLQ.
+Variable F : rcfType.
+Notation ArR := (ArR F).
+
+Lemma natF_natr n : natF ArR n = n%:R.
+Proof. by elim: n => [|n IH] //=; rewrite -/(natF ArR n) IH -mulrSr. Qed.
+
+Lemma foldl_add_big (T : Type) (g : T -> F) (a : F) (s : seq T) :
+  foldl (fun acc j => acc + g j) a s = a + \sum_(j <- s) g j.
+Proof.
+elim: s a => [|x s IH] a /=; first by rewrite big_nil addr0.
+by rewrite IH big_cons addrA.
+Qed.
+
+(* closed form: entry i depends on f_i only *)
+Theorem slq_to_dense_closed (n k : nat) (evals : seq (vec F)) (evecs : seq (mat F)) (funcs : seq (F -> F)) i :
+  (i < size funcs)%N ->
+  nth 0 (slq_to_dense ArR n k evals evecs funcs) i
+  = \sum_(j < size evals) n%:R / (size evals)%:R
+      * \sum_(l < k) (mget ArR (nth [::] evecs j) 0 l) ^+ 2 * (nth id funcs i) (vget ArR (nth [::] evals j) l).
+Proof.
+move=> hi; rewrite /slq_to_dense (nth_map id) //.
+rewrite (@foldl_add_big nat (fun j => _ / _ * _)) /= add0r.
+rewrite -[X in iota 0 X]subn0 -/(index_iota 0 (size evals)) big_mkord.
+by apply: eq_bigr => j _; rewrite !natF_natr sumn_big; congr (_ * _).
+Qed.
+
+(* one quadrature term: with Q^T Q = I, A Q = Q T (full or invariant Krylov space), T V = V diag(lam), V^T V = I,
+   the columns of U = Q V are an orthonormal eigenbasis of A on span Q and
+       sum_l V[0, l]^2 f(lam_l)  =  q_0^T (U diag(f lam) U^T) q_0 ,
+   the quadratic form of f(A) (in the sense of the docstring: f applied to the eigenvalues) at the start vector *)
+Theorem slq_quadrature (n m : nat) (Q : 'M[F]_(n, m.+1)) (T V : 'M[F]_m.+1) (A : 'M[F]_n) (lam : 'rV[F]_m.+1)
+    (f : F -> F) :
+  Q^T *m Q = 1%:M -> A *m Q = Q *m T -> V^T *m V = 1%:M -> T *m V = V *m diag_mx lam ->
+  let U := Q *m V in let q0 := col ord0 Q in
+  [/\ U^T *m U = 1%:M, A *m U = U *m diag_mx lam &
+      \sum_l (V ord0 l) ^+ 2 * f (lam ord0 l) = (q0^T *m (U *m diag_mx (\row_l f (lam ord0 l)) *m U^T) *m q0) ord0 ord0].
+Proof.
+move=> HQ HA HV HT U q0; split.
+- by rewrite /U trmx_mul mulmxA -[V^T *m Q^T *m Q]mulmxA HQ mulmx1.
+- by rewrite /U mulmxA HA -!mulmxA HT.
+- have E0 : q0^T *m U = row ord0 V.
+    by rewrite /q0 /U tr_col -row_mul mulmxA HQ mul1mx.
+  have -> : q0^T *m (U *m diag_mx (\row_l f (lam ord0 l)) *m U^T) *m q0
+            = (q0^T *m U) *m diag_mx (\row_l f (lam ord0 l)) *m (q0^T *m U)^T.
+    by rewrite [X in _ = _ *m X]trmx_mul trmxK !mulmxA.
+  rewrite E0 mxE; apply: eq_bigr => l _.
+  by rewrite mul_mx_diag !mxE expr2 mulrAC.
+Qed.
+
+End SLQ.
+
+(* ---------------------------------------------------------------------------------------------- *)
 (* shapes *)
 Section Shapes.
 
